@@ -1344,3 +1344,11 @@ V("C03-D18-after-load", "C03", "key file taken over only after the nested map wa
             if isinstance(previous, Config) and previous.__keyfile:
                 cfg.__keyfile = previous.__keyfile
             value = cfg""", expect_rule="keyfile.survives-replacement")
+VP("C14-R3D-mut-empty-counts", "C14", "shared _env_lookup helper: an empty variable counts as set", "C14-R3D", CORE,
+   "        return os.environ.get(name) or None", "        return os.environ.get(name)")
+VP("C14-R3D-mut-join-sep", "C14", "shared _env_join helper joins with '-'", "C14-R3D", CORE,
+   '    return "_".join(parts)', '    return "-".join(parts)')
+VP("C14-R3D-mut-prefix-dropped", "C14", "shared _env_join helper: prefix dropped when it is a str", "C14-R3D", CORE,
+   "    parts = [prefix] if isinstance(prefix, str) and prefix else []", "    parts = [] if isinstance(prefix, str) and prefix else [prefix]")
+VP("C14-R3C-mut-skip-unbound", "C14", "flag-based skip: skips although the field has no variable name", "C14-R3C", CORE,
+   "            env_wins = False\n", "            env_wins = True\n")
